@@ -282,4 +282,59 @@ Proof.
   specialize (Hm idx Hin). set (a := tfun Op m idx) in *. set (x := tfun Op X idx). set (l := L idx).
   transitivity (fmul Op (fmul Op a a) (fmul Op (fsub Op x l) (fsub Op x l))); [ring | rewrite Hm; reflexivity].
 Qed.
+
+(* ---- round 6: the CP loop under a mask.  error_calc under a mask reads the tensor it is given only through its OBSERVED entries, and the
+   tensor it hands on (the data imputed with the current reconstruction) has the same observed entries as the original data for a 0/1 mask:
+   so although the loop carries an imputed tensor from iteration to iteration, every value it records is the value error_calc computes
+   from the ORIGINAL data for the factors of that iteration. *)
+Definition agree_observed (Xc X0 m : tensor F) : Prop :=
+  shape Xc = shape X0 /\ forall idx, inb (shape X0) idx -> fmul Op (tfun Op Xc idx) (tfun Op m idx) = fmul Op (tfun Op X0 idx) (tfun Op m idx).
+Lemma tabulate_ext s (f g : list nat -> F) : (forall idx, inb s idx -> f idx = g idx) -> tabulate s f = tabulate s g.
+Proof.
+  intros H. unfold tabulate. f_equal. apply map_ext_in. intros k Hk. apply in_seq in Hk. apply H, unravel_inb. lia.
+Qed.
+Lemma imputed_agree Xc X0 m L idx : agree_observed Xc X0 m -> inb (shape X0) idx ->
+  imputed Op (tfun Op Xc) (Some m) L idx = imputed Op (tfun Op X0) (Some m) L idx.
+Proof. intros [_ H] Hin. unfold imputed. now rewrite (H idx Hin). Qed.
+Theorem error_calc_mask_reads_observed_only Xc X0 m R w fs card M : agree_observed Xc X0 m ->
+  error_calc_model Op Xc R w fs card (Some m) M = error_calc_model Op X0 R w fs card (Some m) M.
+Proof.
+  intros HA. pose proof HA as [Hsh _]. unfold error_calc_model.
+  assert (HS : sparse_of Op Xc (cp_tensor_entry Op R w fs) card (Some m) = sparse_of Op X0 (cp_tensor_entry Op R w fs) card (Some m)).
+  { unfold sparse_of. destruct card as [c|]; [|reflexivity]. rewrite Hsh. do 2 f_equal. apply tabulate_ext. intros idx Hin.
+    now rewrite (imputed_agree Xc X0 m _ idx HA Hin). }
+  rewrite HS. unfold err_explicit. rewrite Hsh. f_equal.
+  - apply SI_ext; intros idx Hin. now rewrite (imputed_agree Xc X0 m _ idx HA Hin).
+  - unfold normsq. apply SI_ext; intros idx Hin. now rewrite (imputed_agree Xc X0 m _ idx HA Hin).
+Qed.
+Lemma impute_keeps_observed Xc X0 m R w fs :
+  (forall idx, inb (shape X0) idx -> fmul Op (tfun Op m idx) (tfun Op m idx) = tfun Op m idx) ->
+  agree_observed Xc X0 m -> agree_observed (impute_with Op m R w Xc fs) X0 m.
+Proof.
+  intros Hm [Hsh H]. split; [cbn; exact Hsh|]. intros idx Hin. unfold impute_with, tfun at 1.
+  rewrite get_tabulate by (rewrite Hsh; exact Hin). unfold imputed.
+  specialize (H idx Hin). specialize (Hm idx Hin).
+  set (a := tfun Op m idx) in *. set (x := tfun Op Xc idx) in *. set (x0 := tfun Op X0 idx) in *. set (l := cp_tensor_entry Op R w fs idx).
+  transitivity (fadd Op (fmul Op x (fmul Op a a)) (fmul Op l (fsub Op a (fmul Op a a)))); [ring|].
+  rewrite Hm. rewrite <- H. ring.
+Qed.
+Theorem masked_loop_reports_errors_of_original_data upd X0 m R w card :
+  (forall idx, inb (shape X0) idx -> fmul Op (tfun Op m idx) (tfun Op m idx) = tfun Op m idx) ->
+  forall n it fs Xc errs, agree_observed Xc X0 m ->
+  snd (masked_loop Op upd m R w card n it fs Xc errs)
+  = errs ++ map (fun fs_j => error_calc_model Op X0 R w fs_j card (Some m) None) (masked_states Op upd m R w n it fs Xc) /\
+  fst (masked_loop Op upd m R w card n it fs Xc errs) = last (masked_states Op upd m R w n it fs Xc) fs.
+Proof.
+  intros Hm. induction n as [|n IH]; intros it fs Xc errs HA; cbn [masked_loop masked_states map last].
+  - now rewrite app_nil_r.
+  - set (fs' := upd it fs Xc).
+    destruct (IH (S it) fs' (impute_with Op m R w Xc fs') (errs ++ [error_calc_model Op Xc R w fs' card (Some m) None])
+                 (impute_keeps_observed Xc X0 m R w fs' Hm HA)) as [H1 H2].
+    split.
+    + rewrite H1, <- app_assoc. cbn [app]. do 2 f_equal. now apply error_calc_mask_reads_observed_only.
+    + rewrite H2. destruct (masked_states Op upd m R w n (S it) fs' (impute_with Op m R w Xc fs')) as [|a l]; [reflexivity|].
+      change (last (a :: l) fs' = last (a :: l) fs). apply last_cons_indep.
+Qed.
+Lemma agree_observed_refl X0 m : agree_observed X0 X0 m.
+Proof. split; [reflexivity | intros; reflexivity]. Qed.
 End PMask.
